@@ -478,9 +478,38 @@ def polarity(rep, c, sfx):
     want = {(True, "None"): "Positive", (True, "Positive"): "Positive", (True, "Negative"): "Negative",
             (False, "None"): "Negative", (False, "Positive"): "Negative", (False, "Negative"): "Positive"}
 
+    def pmatch(pat, val):
+        k = pat.get("k")
+        if k in ("PWild",) or (k == "PBind" and pat.get("sub") is None):
+            return True
+        if k == "POr":
+            return any(pmatch(q, val) for q in pat["pats"])
+        if k == "PTuple":
+            return isinstance(val, tuple) and len(val) == len(pat["pats"]) and all(pmatch(q, v) for q, v in zip(pat["pats"], val))
+        if k == "PLit":
+            return pat.get("v") == val
+        if k in ("PPath", "PTupleStruct", "PStruct"):
+            return isinstance(val, str) and str(pat.get("path", "")).split("::")[-1] == val
+        return False
+
     def ev(n, pos, init):
         n = peel(n)
         k = kind(n)
+        if k == "Path" and n.get("res") == "local" and n["id"] == bid:
+            return pos
+        if k == "Lit" and isinstance(n.get("v"), bool):
+            return n["v"]
+        if k == "Tup":
+            vals = tuple(ev(x, pos, init) for x in n["elems"])
+            return None if any(v is None for v in vals) else vals
+        if k == "Binary" and n["op"] in ("==", "!="):
+            a, b = ev(n["l"], pos, init), ev(n["r"], pos, init)
+            if a is None or b is None:
+                return None
+            return (a == b) if n["op"] == "==" else (a != b)
+        if k == "Unary" and n["op"] == "!":
+            a = ev(n["e"], pos, init)
+            return None if not isinstance(a, bool) else (not a)
         if k == "Block" and n.get("expr") is not None and not n.get("stmts"):
             return ev(n["expr"], pos, init)
         if k == "Path" and n.get("res") == "def" and n.get("path", "").startswith(LOOK + "::"):
@@ -499,14 +528,22 @@ def polarity(rep, c, sfx):
             if hirq.local_id(c) == bid:
                 truth = pos != neg
                 return ev(n["then"] if truth else n["else"], pos, init)
+            cv = ev(c, pos, init)
+            if isinstance(cv, bool) and n.get("else") is not None:
+                return ev(n["then"] if (cv != neg) else n["else"], pos, init)
             return None
         if k == "Match":
             s = ev(n["scrut"], pos, init)
             if s is None:
                 return None
             for arm in n["arms"]:
-                pv = [v.split("::")[-1] for v in hirq.pat_variants(arm["pat"])]
-                if s in pv or hirq.pat_is_catchall(arm["pat"]):
+                if arm.get("guard") is not None:
+                    g = ev(arm["guard"], pos, init)
+                    if g is None:
+                        return None
+                    if not g:
+                        continue
+                if pmatch(arm["pat"], s):
                     return ev(arm["body"], pos, init)
         return None
 
